@@ -38,7 +38,7 @@ PROOF_FAILURE_PATTERNS = (
     "could not prove termination", "might not be allowed", "unable to prove", "fails to satisfy",
 )
 LOG_MACROS = ("trace", "debug", "info", "warn", "error")
-SUBST_KINDS = ("closure-contract", "std-wrap", "std-wrap-all", "verus-syntax", "split-or-guard", "for-ghost-iter", "assoc-type", "eta-ctor", "enumerate-iter-mut")
+SUBST_KINDS = ("closure-contract", "std-wrap", "std-wrap-all", "verus-syntax", "split-or-guard", "for-ghost-iter", "assoc-type", "eta-ctor", "enumerate-iter-mut", "name-impl-trait")
 
 
 class ExtractError(Exception):
@@ -263,10 +263,27 @@ def _validate_subst(kind, old, new, template_text):
         m = re.match(r"^\|(\w+)\|\s*([\w:]+)\((\w+)\)$", new.strip())
         if not m or m.group(1) != m.group(3) or m.group(2) != old.strip():
             raise ExtractError("eta-ctor: replacement must be `|e| <old>(e)`")
+    elif kind == "name-impl-trait":
+        # argument-position `impl Bound` is an anonymous generic parameter; naming it lets the contract mention the type:
+        # `f(a: &X<impl B1, impl B2>` -> `f<K: B1, V: B2>(a: &X<K, V>`. Validated: re-anonymising the new text gives the old.
+        m = re.match(r"^(\w+)\s*<([^()]*)>\s*\((.*)$", new.strip(), re.S)
+        if not m:
+            raise ExtractError("name-impl-trait: replacement must be `name<G: Bound, ...>(args`")
+        gens = [g.strip() for g in _split_top(m.group(2)) if g.strip()]
+        back = m.group(3)
+        for g in gens:
+            gm = re.match(r"^(\w+)\s*:\s*(.+)$", g, re.S)
+            if not gm:
+                raise ExtractError("name-impl-trait: every new generic needs its bound")
+            back, k = re.subn(r"\b%s\b" % re.escape(gm.group(1)), "impl " + gm.group(2).strip(), back)
+            if k != 1:
+                raise ExtractError("name-impl-trait: a named generic must replace exactly one `impl Bound`")
+        if rustscan.norm_ws(m.group(1) + "(" + back).replace(" ", "") != rustscan.norm_ws(old).replace(" ", ""):
+            raise ExtractError("name-impl-trait: re-anonymised replacement differs from the original signature text")
     elif kind == "for-ghost-iter":
         # `for PAT in EXPR` -> `for PAT' in NAME: EXPR` where PAT' is PAT or `_x` for `_` (names the loop's ghost iterator)
-        mo = re.match(r"^for\s+(\S+)\s+in\s+(.+)$", old.strip(), re.S)
-        mn = re.match(r"^for\s+(\S+)\s+in\s+(\w+)\s*:\s*(.+)$", new.strip(), re.S)
+        mo = re.match(r"^for\s+(\S+|\([^)]*\))\s+in\s+(.+)$", old.strip(), re.S)
+        mn = re.match(r"^for\s+(\S+|\([^)]*\))\s+in\s+(\w+)\s*:\s*(.+)$", new.strip(), re.S)
         if not mo or not mn or rustscan.norm_ws(mo.group(2)) != rustscan.norm_ws(mn.group(3)) or \
                 not (mo.group(1) == mn.group(1) or (mo.group(1) == "_" and mn.group(1).startswith("_"))):
             raise ExtractError("for-ghost-iter: only the ghost iterator name may be added")
